@@ -41,6 +41,7 @@ var c04Skeletons = []skeleton{
 	{name: "render-prop-value", kind: "string", pre: "T | render chart with (title=", post: ", kind=stacked)"},
 	{name: "extend-implicit", kind: "string", pre: "T | extend ", post: " | count", alias: true, aliasPre: "", aliasPost: ""},
 	{name: "extend-implicit-call", kind: "string", pre: "T | extend strcat(a, ", post: ")", alias: true, aliasPre: "strcat(a, ", aliasPost: ")"},
+	{name: "after-escaped-literal", kind: "string", pre: "let s = 'p\\tq\\\\'; T | where a == s or b == \"u\\\"v\" or c == ", post: " | project c"},
 	{name: "join-cond", kind: "string", pre: "T | join (R) on k, $left.a == ", post: " | count"},
 
 	{name: "table", kind: "ident", pre: "", post: " | where a > 1"},
